@@ -183,7 +183,7 @@ def show_text(text: str) -> str:
 
 # ---------------------------------------------------------------------------------------- worlds
 class World:
-    __slots__ = ("facts", "ver", "alias", "extra", "compdef", "pending")
+    __slots__ = ("facts", "ver", "alias", "extra", "compdef", "pending", "consts")
 
     def __init__(self):
         self.facts: FrozenSet[Formula] = frozenset()
@@ -192,6 +192,7 @@ class World:
         self.extra: Dict[str, FrozenSet[Formula]] = {}   # collection token -> extra element templates
         self.compdef: Dict[str, Tuple[str, Formula]] = {}  # token B -> (token A, template PHI): B = {x in A | PHI}
         self.pending: Dict[str, FrozenSet[Formula]] = {}   # token y -> facts valid when y is not None
+        self.consts: Dict[str, object] = {}                # token -> the constant it was bound to
 
     def clone(self) -> "World":
         w = World()
@@ -201,6 +202,7 @@ class World:
         w.extra = dict(self.extra)
         w.compdef = dict(self.compdef)
         w.pending = dict(self.pending)
+        w.consts = dict(self.consts)
         return w
 
     def add(self, *fs: Formula) -> None:
@@ -240,6 +242,9 @@ def join_worlds(worlds: Sequence[World], tag: str) -> World:
             for k in list(d_m):
                 if d_w.get(k) != d_m[k]:
                     del d_m[k]
+        for k in list(m.consts):
+            if k not in w.consts or w.consts[k] != m.consts[k] or type(w.consts[k]) is not type(m.consts[k]):
+                del m.consts[k]
         for d_m, d_w in ((m.extra, w.extra), (m.pending, w.pending)):
             for k in list(d_m):
                 if k in d_w:
@@ -381,7 +386,20 @@ class PathAnalysis:
             return self._formula(t.args[0], w)
         return Lit(self.term(t, w))
 
+    def _const_of(self, e: ast.AST, w: World):
+        if isinstance(e, ast.Constant):
+            return True, e.value
+        if isinstance(e, ast.Name) and w.token(e.id) in w.consts:
+            return True, w.consts[w.token(e.id)]
+        return False, None
+
     def _compare(self, a: ast.AST, op: ast.cmpop, b: ast.AST, w: World) -> Formula:
+        if isinstance(op, (ast.Eq, ast.NotEq, ast.Is, ast.IsNot)):
+            ka, va = self._const_of(a, w)
+            kb, vb = self._const_of(b, w)
+            if ka and kb and not (isinstance(a, ast.Constant) and isinstance(b, ast.Constant)):
+                same = (va == vb and type(va) is type(vb))
+                return TRUE if same == isinstance(op, (ast.Eq, ast.Is)) else FALSE
         ta, tb = self.term(a, w), self.term(b, w)
         if isinstance(op, (ast.In, ast.NotIn)):
             return Lit(f"in({ta}, {tb})", isinstance(op, ast.In))
@@ -627,16 +645,19 @@ class PathAnalysis:
         terms = [self.term(c, w) for c in comps]
         return "|".join(PH(f"k{i}") for i in range(len(terms))), terms
 
-    def _record_keyed(self, w_list: Sequence[World], name: str, key: ast.AST) -> None:
+    def _record_keyed(self, w_list: Sequence[World], name: str, key: ast.AST, value: Optional[ast.AST] = None) -> None:
         per_world = []
         shape = None
         for w in w_list:
             shape, terms = self._key_shape(w, key)
+            vterm = self.term(value, w) if isinstance(value, ast.Name) else None
             tmpl = set()
             for f in w.facts:
                 g = f
                 for i, t in enumerate(terms):
                     g = subst(g, lambda s, t=t, i=i: replace_term(s, t, PH(f"k{i}")))
+                if vterm is not None:
+                    g = subst(g, lambda s: replace_term(s, vterm, PH("kv")))
                 if g != f:
                     tmpl.add(g)
             per_world.append(frozenset(tmpl))
@@ -645,7 +666,7 @@ class PathAnalysis:
         common = frozenset.intersection(*per_world)
         self._keyed.setdefault(name, []).append((f"{shape}", common))
 
-    def _keyed_lookup(self, w: World, name: str, key: ast.AST) -> FrozenSet[Formula]:
+    def _keyed_lookup(self, w: World, name: str, key: ast.AST, result_tok: Optional[str] = None) -> FrozenSet[Formula]:
         entry = self.base_keyed.get(name)
         if not entry:
             return frozenset()
@@ -658,17 +679,21 @@ class PathAnalysis:
             g = f
             for i, t in enumerate(terms):
                 g = subst(g, lambda s, t=t, i=i: s.replace(PH(f"k{i}"), t))
+            if result_tok is not None:
+                g = subst(g, lambda s: s.replace(PH("kv"), result_tok))
+            if any(PH("kv") in a for a in atoms_of(g)):
+                continue
             out.add(g)
         return frozenset(out)
 
     def _pending_from_lookup(self, w: World, tok: str, value: ast.AST) -> None:
         if isinstance(value, ast.Call) and isinstance(value.func, ast.Attribute) and value.func.attr == "get" \
                 and isinstance(value.func.value, ast.Name) and value.args:
-            facts = self._keyed_lookup(w, value.func.value.id, value.args[0])
+            facts = self._keyed_lookup(w, value.func.value.id, value.args[0], tok)
             if facts and (len(value.args) == 1 or (isinstance(value.args[1], ast.Constant) and value.args[1].value is None)):
                 w.pending[tok] = facts
         elif isinstance(value, ast.Subscript) and isinstance(value.value, ast.Name) and not isinstance(value.slice, ast.Slice):
-            facts = self._keyed_lookup(w, value.value.id, value.slice)
+            facts = self._keyed_lookup(w, value.value.id, value.slice, tok)
             if facts:
                 w.add(*facts)
 
@@ -990,6 +1015,8 @@ class PathAnalysis:
                         if src_tok in d:
                             d[tok] = d[src_tok]
                 if isinstance(value, ast.Constant):
+                    if isinstance(value.value, (str, int, bool, type(None))):
+                        w.consts[tok] = value.value
                     w.add(Lit(tok, bool(value.value)))
                     if value.value is None:
                         w.add(Lit(f"is({tok}, None)"))
@@ -1015,7 +1042,7 @@ class PathAnalysis:
             return
         if isinstance(target, ast.Subscript) and isinstance(target.value, ast.Name) and not isinstance(target.slice, ast.Slice):
             name = target.value.id
-            self._record_keyed([w for w in ws if w.consistent()], name, target.slice)
+            self._record_keyed([w for w in ws if w.consistent()], name, target.slice, value)
             kt = [self._templates_for(w, target.slice).get("e", frozenset()) for w in ws if w.consistent()]
             vt = [self._templates_for(w, value).get("e", frozenset()) for w in ws if w.consistent()]
             if kt:
